@@ -37,7 +37,7 @@ def goals(tier):
     for fam in ("generic", "kit", "registry"):
         for z in ("group1", "group2", "group3", "match-flank", "outside-match"):
             g.append("{}:origin-in-{}".format(fam, z))
-    return g + ["generic:part-class", "generic:vector", "kit:vector", "registry:vector", "rejected-stays-rejected", "generic:self-overlapping-site"]
+    return g + ["generic:part-class", "generic:vector", "kit:vector", "registry:vector", "rejected-stays-rejected", "generic:self-overlapping-site", "generic:every-presentation"]
 
 
 # ---------------------------------------------------------------------------------------------
@@ -102,6 +102,34 @@ def zone(sp, n, r):
     return "outside-match"
 
 
+def observe_typing(cls, rec):
+    """what can be asked of a plasmid handed over as a plain SeqRecord: the verdict and the overhangs"""
+    gen.fresh(cls)
+    e = cls(rec)
+    try:
+        if not e.is_valid():
+            return (False,)
+        return (True, str(e.overhang_start()), str(e.overhang_end()))
+    except Exception as ex:
+        return ("raises", type(ex).__name__, str(ex)[:100])
+
+
+def check_presentations(st, fam, cls, sr, obs0, scn):
+    """the rotated plasmid in every other legal presentation (container class, sequence class, topology spelling, annotations)"""
+    from Bio.SeqRecord import SeqRecord
+    for pname, rec in gen.presentations(sr, "r0")[1:]:
+        if isinstance(rec, CircularRecord):
+            o, exp = observe(cls, rec), obs0
+        else:
+            o, exp = observe_typing(cls, rec), tuple(obs0[:3])
+        st.scenario("presentation", None, nodes=0)
+        st.goal(fam + ":every-presentation")
+        if obs0[0] is True:
+            st.nontrivial += 1
+        if o != exp:
+            st.violation(fam, "answers-depend-on-how-the-plasmid-is-handed-over-" + pname, dict(scn, presentation=pname), exp, o)
+
+
 def check_record(st, fam, cls, s, rots, constructions, scn_base):
     n = len(s)
     nstarts, ref, sp = reference(cls, s)
@@ -142,6 +170,8 @@ def check_record(st, fam, cls, s, rots, constructions, scn_base):
             st.scenario("accepted" if obs0[0] is True else "rejected", None)
             if r % n and obs0[0] is True:
                 st.nontrivial += 1
+            if c == "fresh" and scn_base.get("presentations"):
+                check_presentations(st, fam, cls, rm.rot_right(s, r), obs0, dict(scn_base, rotation=r, construction=c))
             if o != obs0:
                 if o[0] in ("unstable", "mutated", "raises") and obs0[0] is True:
                     cause = "accessors-{}-under-rotation".format(o[0])
@@ -222,7 +252,7 @@ def unit_generic(st, enz):
                 st.goal("generic:self-overlapping-site")
         for cls, s, label in jobs:
             check_record(st, "generic", cls, s, range(len(s)), (">>", "fresh"),
-                         dict(family="generic", enz=enz, cls_kind=label, lens=lens, seq=s, cls=cls.__name__,
+                         dict(family="generic", enz=enz, cls_kind=label, lens=lens, seq=s, cls=cls.__name__, presentations=lens is None and enz in ("BsaI", "BbsI", "FokI"),
                               signature=list(getattr(cls, "signature", None) or []) or None))
     st.sample(dict(family="generic", enz=enz, cls_kind="module", rotation=1, construction=">>"))
 
